@@ -51,13 +51,26 @@ def drive_all(ctx, drv, jobs):
         tf = ctx.path("traces-%s.ndjson" % tag)
         out = ctx.path("result-%s.json" % tag)
         tmp = ctx.mkdir("lftmp-" + tag)
-        run_driver(ctx, [drv, "-mode", mode, "-family", family, "-configs", cfgs, "-traces", tf, "-out", out, "-tmp", tmp] + extra, timeout=3000)
+        try:
+            run_driver(ctx, [drv, "-mode", mode, "-family", family, "-configs", cfgs, "-traces", tf, "-out", out, "-tmp", tmp] + extra, timeout=3000)
+        except NoVerdict as e:
+            # a driver that dies (the code under test closed a descriptor of the driver, say) must not hide what the other
+            # modes observe: its failure is kept and only becomes the outcome when nobody found a violation
+            ctx.driver_failures = getattr(ctx, "driver_failures", []) + [e]
+            return tag, dict(counters={}, samples=[], drift=[], violations=[], evaluations=0, distinct_nontrivial=0, extra={}), None
         return tag, load_result(out), tf
     with concurrent.futures.ThreadPoolExecutor(max_workers=8) as ex:
         for tag, r, tf in ex.map(one, jobs):
             results[tag] = r
-            files.append(tf)
+            if tf:
+                files.append(tf)
     return results, files
+
+
+def settle(ctx, violations):
+    """no violation found and some driver died: no verdict"""
+    if not violations and getattr(ctx, "driver_failures", None):
+        raise ctx.driver_failures[0]
 
 
 def describe(rec):
